@@ -147,7 +147,10 @@ def check(case):
         # the program differentiates the potentials numerically over 0.001 wavelength; closer than 8 such
         # steps to a conductor the truncation error of that step alone exceeds the 1 % of the statement
         dmin = dist_to_structure(obs, topo, ground)
-        fd = ':closer-than-8-finite-difference-steps' if (dmin < 8 * 0.001 * lam and max(de, dh) <= 0.05) else ''
+        # (central differences of a field that falls as 1/d^2..1/d^3 are off by about (step / d)^2: 1.6 % at 8 steps,
+        # 1.1 % at 9 steps - observed -, 0.7 % at 12 steps)
+        h_fd = 0.001 * lam
+        fd = ':closer-than-12-finite-difference-steps' if (dmin < 12 * h_fd and max(de, dh) <= (0.05 if dmin < 8 * h_fd else 0.02)) else ''
         if de > 0.01:
             fails.append(('E-vs-currents:' + spec['shell'] + fd, 'E at %s: program %s, field of the solved currents %s (%.3g)'
                           % ([float(x) for x in obs], e.tolist(), Er.tolist(), de)))
